@@ -171,6 +171,11 @@ def emit_cpp(prog, opts=None):
     for e in prog.events:
         b = prog.evt_base.get(e)
         if b: out.append('struct %s : %s { %s(int v = 0) : %s(v) {} };' % (e, b, e, b))
+        elif opts.get('counted_events'):
+            # C20: every construction / destruction of an event object is reported to the harness (vf_life); one event type is
+            # larger than the inline buffer of the backmp11 event storage (heap fallback)
+            pad = 'char pad[%d];' % opts['counted_events'][e] if opts['counted_events'].get(e) else ''
+            out.append('struct %s { int p; %s %s(int v = 0) : p(v) { vf_life(1); } %s(%s const& o) : p(o.p) { vf_life(1); } %s& operator=(%s const& o) { p = o.p; return *this; } ~%s() { vf_life(-1); } };' % (e, pad, e, e, e, e, e, e))
         else: out.append('struct %s { int p; %s(int v = 0) : p(v) {} %s };' % (e, e, (getattr(prog, 'evt_extra', None) or opts.get('evt_extra', {})).get(e, '')))
     for f in prog.flags: out.append('struct %s {};' % f)
     out.append('}')
@@ -232,6 +237,8 @@ def emit_cpp(prog, opts=None):
         for r in range(len(prog.root.regions)):
             out.append('  vf_log(%d, vf_sidx(0, (int)VF_IDS(g_sm)[%d]));' % (6000 + 100 + r, r))
         out.append('}')
+    if opts.get('counted_events'):
+        out.append('__attribute__((noinline)) void vf_destroy(void) { g_sm.~M(); new (&g_sm) M(); }   // C20: destroy the machine with whatever is pending')
     if opts.get('probe') == 'ids_all':
         out.append('void vf_probe(void) {   // C19: the ids every machine level reports, queried inside the behaviour')
         for m in prog.machines:
@@ -506,6 +513,7 @@ def step_call(prog, st, decs=None, pay='0'):
     if st[0] == 'ev':
         return pre + '(void)VFN(vf_ev)(%d, %s);' % (prog.events.index(st[1]), st[2] if len(st) > 2 and st[2] != 'P' else pay)
     if st[0] == 'enq': return pre + 'VFN(vf_enq)(%d, %s);' % (prog.events.index(st[1]), st[2] if len(st) > 2 and st[2] != 'P' else pay)
+    if st[0] == 'destroy': return pre + 'VFN(vf_destroy)();'
     if st[0] == 'execq': return pre + 'VF_EXECQ();'
     if st[0] == 'exec1': return pre + 'VFN(vf_exec1)();'
     raise ValueError(st)
